@@ -142,6 +142,7 @@ def expected(l, d, bits):
             "roles": {"kernel_quantizer": e["kernel_quantizer"], "recurrent_quantizer": e.get("recurrent_quantizer"),
                       "bias_quantizer": e.get("bias_quantizer") if cfg["use_bias"] else None,
                       "state_quantizer": e.get("state_quantizer")},
+            "recurrent_activation": e.get("recurrent_activation_quantizer") if cn in ("LSTM", "GRU") else None,
             "activation": act_rule(e, cfg["activation"])}
   if cn == "Bidirectional":
     e, how = entry_for(d, name, "QBidirectional")
@@ -152,6 +153,8 @@ def expected(l, d, bits):
             "roles": {"kernel_quantizer": e["kernel_quantizer"], "recurrent_quantizer": e.get("recurrent_quantizer"),
                       "bias_quantizer": e.get("bias_quantizer") if icfg["use_bias"] else None,
                       "state_quantizer": e.get("state_quantizer")},
+            "recurrent_activation": (e.get("recurrent_activation_quantizer")
+                                     if cfg["layer"]["class_name"] in ("LSTM", "GRU") else None),
             "activation": act_rule(e, icfg["activation"])}
   if cn == "Activation":
     e, how = entry_for(d, name, "QActivation", "QAdaptiveActivation")
@@ -336,9 +339,25 @@ def run_case(case, ctx):
         nm = getattr(gota, "__name__", None) or (gota if isinstance(gota, str) else type(gota).__name__)
         if nm != val and not (val is None and nm in ("linear", "NoneType")):
           ctx.violation(dict(sig, kind="plain_activation_changed"), "%s: %r -> %r" % (l.name, val, nm), None)
+    # the gate activation of LSTM / GRU has its own dictionary entry; without one it is a hyper-parameter
+    # like any other (compared below)
+    ra = exp.get("recurrent_activation")
+    if ra:
+      ctx.count("recurrent_activation_entries")
+      gotr = getattr(target, "recurrent_activation", None)
+      try:
+        wantr = qdesc(Q.get_quantizer(ra))
+      except Exception:  # pylint: disable=broad-except
+        wantr = ("unparsable", ra, ra)
+      gr = qdesc(gotr) or ("None", "", "None")
+      if gr[0] != wantr[0] or gr[2] != wantr[2]:
+        ctx.violation(dict(sig, kind="recurrent_activation_differs_from_configured"),
+                      "%s: recurrent activation %s, expected %s" % (l.name, gr[2], wantr[2]), {"dict": d})
     # non-quantization hyper-parameters
     sc, qc = snap.plain(l.get_config()), snap.plain(ql.get_config())
     for k, v in sc.items():
+      if ra and k == "recurrent_activation":
+        continue
       if k in EXCLUDE or k.endswith(("_initializer", "_constraint", "_quantizer", "_regularizer")) or k in ("layer", "backward_layer"):
         continue
       if cn in ("ReLU", "LeakyReLU") and k in ("max_value", "negative_slope", "threshold", "alpha"):
